@@ -1,6 +1,7 @@
 From Coq Require Import ZArith List Extraction ExtrOcamlBasic.
-Require Import Reduce ReduceExec.
+Require Import Reduce ReduceExec RepCycle.
 Extraction "extracted/pm_model.ml"
   Z.add Z.mul Z.sub Z.div Z.modulo Z.compare Z.opp Z.of_nat Z.to_nat
   certified_lows check_any check_RU check_upper check_reduced check_diag check_product lows pairs_of_lows
-  mat_mul transpose dense_of_sparse dense_col mget reduce inv_mod.
+  mat_mul transpose dense_of_sparse dense_col mget reduce inv_mod
+  check_rep check_cycle check_chain_complex check_dims check_support rep_witness.
